@@ -31,7 +31,8 @@ def _run_one(args):
     from ..cli import run_check
     from ..core.model import AnchorError
     t0 = time.time()
-    res = {"name": v["name"], "kind": v["kind"], "applicable": True, "flagged": False, "new": [], "error": None}
+    res = {"name": v["name"], "kind": v["kind"], "applicable": True, "flagged": False, "new": [], "error": None,
+           "detectable": v.get("detectable", True)}
     try:
         overlay = v.get("overlay")
         if overlay is None:
@@ -100,7 +101,7 @@ def seeded_variants(prop, root):
             for rel in files:
                 with open(os.path.join(tmp, rel), encoding="utf-8") as fh:
                     overlay[rel] = fh.read()
-            out.append({"name": "seed:" + name, "kind": "break", "overlay": overlay})
+            out.append({"name": "seed:" + name, "kind": "break", "overlay": overlay, "detectable": meta.get("detectable", True)})
         finally:
             shutil.rmtree(tmp, ignore_errors=True)
     return out
@@ -117,12 +118,14 @@ def audit(prop, root="/repo", jobs=None, seed=0):
         results = list(ex.map(_run_one, [(prop, root, v, base) for v in vs]))
     br = [r for r in results if r["kind"] == "break" and r["applicable"]]
     eq = [r for r in results if r["kind"] == "equiv" and r["applicable"]]
-    missed = [r for r in br if not r["flagged"]]
+    known_miss = [r for r in br if not r["flagged"] and not r.get("detectable", True)]
+    missed = [r for r in br if not r["flagged"] and r.get("detectable", True)]
     false_alarm = [r for r in eq if r["flagged"] or r["error"]]
     na = [r for r in results if not r["applicable"]]
     out = {
         "variants": len(results),
-        "breaking": {"run": len(br), "flagged": len(br) - len(missed), "missed": [r["name"] for r in missed],
+        "breaking": {"run": len(br), "flagged": len(br) - len(missed) - len(known_miss), "missed": [r["name"] for r in missed],
+                     "known_not_detectable": [r["name"] for r in known_miss],
                      "refused_with_analysis_error": [r["name"] for r in br if r.get("refused")]},
         "equivalent": {"run": len(eq), "silent": len(eq) - len(false_alarm),
                        "false_alarms": [{"name": r["name"], "new": r["new"], "error": r["error"]} for r in false_alarm]},
